@@ -175,10 +175,10 @@ CHECKS = {
         "the global context. The tie executes random such programs on /repo with every module-level helper (put, putpin, Pin.put, "
         "connect, connect_all, raise_pins, add_param, set/update_default_params, add_structure_to_monitors, solve) and compares the kind "
         "of exit, lekkersim.sol_list afterwards and, for each helper call, which solver actually changed."
-        " All solvers of a program share one parameter name, so a helper that touches an enclosing solver's entry is seen. Programs also call Structure.raise_pins on placed models and placed sub-solvers; all solvers of a program own one common parameter name so that a helper reaching a wrong solver is visible. put is also exercised with a source pin and a target (Model.put and Solver.put by name); a stray lk.connect on an enclosing solver's free pins must be refused and change no solver. The solver of an enclosing, still open with-block may be placed into the innermost one (the placement belongs to the innermost solver).",
+        " All solvers of a program share one parameter name, so a helper that touches an enclosing solver's entry is seen. Programs also call Structure.raise_pins on placed models and placed sub-solvers; all solvers of a program own one common parameter name so that a helper reaching a wrong solver is visible. put is also exercised with a source pin and a target (Model.put and Solver.put by name); a stray lk.connect on an enclosing solver's free pins must be refused and change no solver. The solver of an enclosing, still open with-block may be placed into the innermost one (the placement belongs to the innermost solver). On every run harness/translate_stack.py also classifies EVERY occurrence of lekkersim.sol_list in the package (push in __enter__, pop in __exit__, use of sol_list[-1] elsewhere; any other use, a helper that is more than one delegation, or a Solver method that goes through the stack is rejected) and coq/templates/StackSrcProof.v proves that these operations are exactly the PWith / PHelper clauses of Stack.exec (enter_exit_src, with_src_is_PWith, users_act_on_top, helper_src_is_PHelper; closed under the global context).",
    note="Trusted: Coq kernel + vm_compute; CPython's with/try semantics as modelled; model Stack.v tied by sampled correspondence; harness "
         "(the changed solver is detected by fingerprinting all solvers before/after each helper).",
-   technique="Coq proof by induction over programs + vm_compute correspondence of executed with-block programs", design="§5 C17"),
+   technique="Coq proof by induction over programs + vm_compute correspondence of executed with-block programs + source-to-Gallina classification of every use of the solver stack proved to be the model's clauses on every run", design="§5 C17"),
  "C07": dict(
    text="Proof (props/C07.v, closed): the representation invariant Rep of the wiring state — every table of the solver (connections, "
         "connection list) and of every structure it ever held (conn_dict, connected_to) is a function of the list of present structures "
